@@ -258,6 +258,24 @@ def run(out: Outcome) -> None:
         from common import VERIF
         w = json.loads((VERIF / "corpus" / "findings" / "KF-C05-1.json").read_text())
         check(out, w["params"], w["stream"], [])
+    # concrete facts PROVED for the model, replayed on the implementation
+    #  C05b.shrink_witness: clock=1, delta=0.9, m=8, min_window_size=1, min_num_instances=7 on 0,0,0,0,100,100,100,100: the 8th update cuts and reports drift
+    d = dets.make("ADWIN", {"clock": 1, "delta": 0.9, "m": 8, "min_window_size": 1, "min_num_instances": 7})
+    tr = []
+    for x in [0, 0, 0, 0, 100, 100, 100, 100]:
+        d.update(value=float(x))
+        tr.append((bool(d.drift), int(d.width)))
+    if tr[:7] != [(False, k) for k in range(1, 8)] or not tr[7][0] or not tr[7][1] < 8:
+        out.violation(f"ADWIN: on the stream of theorem C05b.shrink_witness the implementation gives (drift, width) = {tr}, proved for the model: no drift and widths 1..7, "
+                      "then drift with a shorter window at update 8", {"class": "ADWIN", "kind": "theorem witness", "theorem": "C05b.shrink_witness"})
+    #  C02d.adwin_max_lt_buckets_witness: default integer parameters, any six values: num_buckets = 7, num_max_buckets = 6
+    d = dets.make("ADWIN", {})
+    for x in [0.3, 0.1, 0.5, 0.2, 0.9, 0.4]:
+        d.update(value=x)
+    if (int(d.num_buckets), int(d.num_max_buckets)) != (7, 6):
+        out.violation(f"ADWIN: after six updates (num_buckets, num_max_buckets) = {(int(d.num_buckets), int(d.num_max_buckets))}, proved for the model: (7, 6)",
+                      {"class": "ADWIN", "kind": "theorem witness", "theorem": "C02d.adwin_max_lt_buckets_witness"})
+    out.case({"theorem_witnesses": 2})
     for _ in range(2 if thorough else 1):
         m = rng.choice([1, 1, 2]) if thorough else 1
         check_long(out, rng, {"clock": 32, "delta": 0.002, "m": m, "min_window_size": 5, "min_num_instances": 10}, (17500 if m == 1 else 34000) + rng.randint(0, 1500), runners)
